@@ -1,13 +1,16 @@
 // Models of the process environment used by uci.rs: standard input, process exit.
 pub const MAXSCRIPT: usize = 6;
-pub static mut SCRIPT: [&'static str; MAXSCRIPT] = [""; MAXSCRIPT];
-pub static mut SCRIPT_LEN: usize = 0;
-pub static mut SCRIPT_POS: usize = 0;
-pub static mut READS_AFTER_EOF: u32 = 0;
-pub static mut EXIT_CODE: Option<i32> = None;
+/// the script's lines are supplied by the harness through `crate::h_loop::script_line(i)` (a static array of
+/// &str fat pointers made CBMC report invalid memcpy sources)
+// NOTE (Kani 0.68): a `pub static mut` scalar whose initial bytes equal those of a constant the compiled code
+// refers to by address (e.g. the zero capacity inside `String::new()`) was observed to SHARE that constant's
+// object: writing 1 to a zero-initialised `pub static mut usize` made every later `String::new()` report invalid
+// deallocations.  All harness-global scalars therefore start from distinctive sentinel values and are set
+// explicitly by the reset functions before use.
 /// when set, the exit model runs the C16 harness's final assertions just before the path ends
 /// (a plain flag, not a function pointer: CBMC's function-pointer removal produced spurious dealloc failures)
-pub static mut AT_EXIT_C16: bool = false;
+pub struct Env { pub magic: u64, pub script_len: usize, pub script_pos: usize, pub reads_after_eof: u32, pub exit_code: Option<i32>, pub at_exit_c16: bool }
+pub static mut ENV: Env = Env { magic: 0x5EED_E0E0_0BAD_F00D, script_len: 0, script_pos: 0, reads_after_eof: 0, exit_code: None, at_exit_c16: false };
 pub struct Stdin;
 pub struct ReadErr;
 pub fn stdin() -> Stdin { Stdin }
@@ -17,13 +20,13 @@ impl Stdin {
     /// the engine only distinguishes Ok(0) / Ok(n) / Err(_))
     pub fn read_line(&self, buf: &mut String) -> Result<usize, ReadErr> {
         unsafe {
-            if SCRIPT_POS < SCRIPT_LEN {
-                let l = SCRIPT[SCRIPT_POS]; SCRIPT_POS += 1;
-                buf.push_str(l); buf.push('\n');
-                Ok(l.len() + 1)
+            if ENV.script_pos < ENV.script_len {
+                let n = crate::h_loop::push_script_line(ENV.script_pos, buf); ENV.script_pos += 1;
+                buf.push('\n');
+                Ok(n + 1)
             } else {
-                READS_AFTER_EOF += 1;
-                if READS_AFTER_EOF > 1 {
+                ENV.reads_after_eof += 1;
+                if ENV.reads_after_eof > 1 {
                     crate::envmodel::spin_detected();
                 }
                 Ok(0)
@@ -31,11 +34,8 @@ impl Stdin {
         }
     }
 }
-pub fn reset(script: &[&'static str]) {
-    unsafe {
-        SCRIPT_LEN = script.len(); SCRIPT_POS = 0; READS_AFTER_EOF = 0; EXIT_CODE = None; AT_EXIT_C16 = false;
-        let mut i = 0; while i < MAXSCRIPT { SCRIPT[i] = if i < script.len() { script[i] } else { "" }; i += 1; }
-    }
+pub fn reset(nlines: usize) {
+    unsafe { ENV.script_len = nlines; ENV.script_pos = 0; ENV.reads_after_eof = 0; ENV.exit_code = None; ENV.at_exit_c16 = false; }
 }
 #[cfg(kani)]
 pub fn end_path() -> ! { kani::assume(false); loop {} }
@@ -47,6 +47,6 @@ pub fn spin_detected() {
     end_path();
 }
 pub fn exit(code: i32) -> ! {
-    unsafe { EXIT_CODE = Some(code); if AT_EXIT_C16 { crate::h_loop::final_checks(); } }
+    unsafe { ENV.exit_code = Some(code); if ENV.at_exit_c16 { crate::h_loop::final_checks(); } }
     end_path()
 }
